@@ -303,6 +303,7 @@ func init() {
 	}
 	intrinsics["math.Floor"] = fpun("fp.floor", math.Floor)
 	intrinsics["math.Ceil"] = fpun("fp.ceil", math.Ceil)
+	intrinsics["math.Trunc"] = fpun("fp.trunc", math.Trunc)
 	intrinsics["math.Abs"] = fpun("fp.abs", math.Abs)
 	intrinsics["math.Pow"] = func(in *Interp, _ *frame, a []Value) Value {
 		x, ok1 := a[0].(float64)
